@@ -22,6 +22,10 @@ LOOP_FUEL = 600
 LOOP_TIE_STRICT = False
 TIE = {'proportional.BiproportionalEvaluator.evaluate': 'per-output validation by the proved-sound certificate checker (cert_ok) '
                                                         'and, on refusals, by the verified feasibility reference',
+       'whole evaluate <-> Model/BipropLoop.v (the function of the partial-correctness theorems C07_evaluate_[total_]partial_correct)':
+           'correspondence on every explored instance: outcome (returned matrix / kind of refusal or crash), final multipliers and the '
+           'state at the top of every iteration (verif hook trace); the iteration order of the district frozenset is observed from '
+           'outside (instance attribute shadowing _districts_unsat) and handed to the model, whose theorem holds for every order',
        'multipliers': 'verif hook (final district_coefs / party_coefs); an exact solver in the harness when the hook is absent or its '
                       'multipliers do not certify the result',
        'proportional.BiproportionalEvaluator._augment_result / _adj_coef': 'correspondence with Model/Biprop.v augment / adj_coef',
@@ -36,12 +40,19 @@ RULE = ('corpus; exhaustive 2x2 matrices with votes 0..2, 1..3 seats, both divis
         'is left out. Instances whose party or district apportionment is tied are outside the quantifier and only counted. '
         'non-trivial = at least one transfer or multiplier update happened (trace longer than one state) or the call was refused; '
         'distinct by case hash')
-PARTIAL = ['termination of tie-and-transfer for all inputs is not proved: observed under a wall-clock bound per instance (exploration)',
+PARTIAL = ['termination of tie-and-transfer for all inputs is not proved (C07_termination_full_statement): observed under a wall-clock '
+           'bound per instance (exploration); proved: partial correctness of the whole-loop model for all inputs and the transfer bound '
+           'flaw/2 (C07_transfer_progress); the number of consecutive multiplier updates is not bounded',
+           'whole-loop model = code only as far as the correspondence stream explored; a code change that picks another valid output '
+           'where cells tie loses the tie without violating C07: counted (model_vs_impl_disagreements), judged by the checker '
+           '(LOOP_TIE_STRICT makes it fail the check)',
            '"refuses only when no seat matrix exists" is decided per instance (verified cut / matrix certificates), not for all inputs',
            'the row <-> HighestAverages model equality is stated (C07_row_is_highest_averages_full_statement) and proved in its '
            'declarative min-max form (C07_row_divisor_apportionment) only',
-           '_labeled (the labelling search) is not modelled: the transfer path is an oracle in C07_augment_inv']
-TRUSTED = ['the verif hook in BiproportionalEvaluator.evaluate (records copies of result / district_coefs / party_coefs; add-only)',
+           'C07_augment_inv treats the transfer path as an oracle; the whole-loop theorems compute it (labeled + walk)']
+TRUSTED = ['observation of the district iteration order: run_impl shadows the static method _districts_unsat on the evaluator instance '
+           '(library untouched) and rebuilds frozenset(cur) | frozenset(tgt) from the very arguments',
+           'the verif hook in BiproportionalEvaluator.evaluate (records copies of result / district_coefs / party_coefs; add-only)',
            'harness-side exact solver for multipliers (untrusted: its output is only a certificate for cert_ok)']
 ASSUMPTIONS = ['a wall-clock limit stands in for termination', 'votes are non-negative integers, at least one of them positive']
 EXTRA_PROOF_FILES = []
